@@ -291,3 +291,20 @@ func sharedBuffer(g orb.Geometry) orb.Geometry {
 	}
 	return cp(g)
 }
+
+// prevTracker remembers the geometry a call returned (the very value, not a copy) and what it looked like; check
+// reports, after the next call, whether it still looks the same (1) - results must not live in memory that later
+// calls reuse - and then remembers the new result.
+type prevTracker struct {
+	ref  orb.Geometry
+	snap string
+}
+
+func (t *prevTracker) check(next orb.Geometry) int {
+	ok := 1
+	if t.ref != nil && fmt.Sprint(t.ref) != t.snap {
+		ok = 0
+	}
+	t.ref, t.snap = next, fmt.Sprint(next)
+	return ok
+}
